@@ -84,6 +84,8 @@ type row struct {
 	Outs       []int     `json:"outs,omitempty"`
 	Nontrivial bool      `json:"nontrivial"`
 	ReplayGen  string    `json:"replay_gen,omitempty"`
+	// sweep
+	Sweep *sweepInfo `json:"sweep,omitempty"`
 }
 
 func hx(b []byte) string { return hex.EncodeToString(b) }
@@ -2111,6 +2113,346 @@ func linesCase(r *hlib.SplitMix64, gen string) row {
 	return rw
 }
 
+// ---------------------------------------------------------------- record-length sweep
+
+var lenKindNames = []string{"arp", "tcp", "icmp", "socks", "elastic", "docker"}
+
+// asciiFill: n printable ASCII bytes that both escapers copy unchanged (one output byte each)
+func asciiFill(r *hlib.SplitMix64, n int) string {
+	const plain = "abcdefghijklmnopqrstuvwxyzABCDEFGHIJKLMNOPQRSTUVWXYZ0123456789 -_.:,;/()[]{}=+*#@!?~|^%$'`"
+	b := make([]byte, n)
+	for i := range b {
+		b[i] = plain[r.Intn(len(plain))]
+	}
+	return string(b)
+}
+
+// sizedResult builds a result of the given type whose MarshalJSON output is EXACTLY want bytes long: the
+// string its peer controls (arp vendor, tcp flags, icmp/socks address text, elastic cluster name inside the
+// server's info map, docker daemon name inside the server's info struct) is a seeded prefix (one time in
+// three a nasty string: escapes, multi-byte runes, broken UTF-8) padded with plain characters.  ok = false
+// if the type's smallest record is longer than want.
+func sizedResult(r *hlib.SplitMix64, kind, want int) (genRes, bool) {
+	ip := fmt.Sprintf("10.%d.%d.%d", r.Intn(4), r.Intn(256), r.Intn(256))
+	port := uint16(1 + r.Intn(65535))
+	ttl := uint8(r.Intn(256))
+	withIdx := r.Bool()
+	prefix := ""
+	if r.Intn(3) == 0 {
+		prefix, _ = nasty(r)
+		if len(prefix) > 160 {
+			prefix = prefix[:160]
+		}
+	}
+	build := func(f string) genRes {
+		g := genRes{class: lenKindNames[kind] + ":sized"}
+		switch kind {
+		case 0:
+			x := &arp.ScanResult{IP: ip, MAC: "00:11:22:33:44:55", Vendor: f}
+			g.real, g.desc = x, resDesc{0, []val{sval(x.IP), sval(x.MAC), sval(x.Vendor)}}
+			g.fresh = func() interface{} { return &shArp{} }
+			e := shArp(*x)
+			g.expect = &e
+		case 1:
+			x := &tcp.ScanResult{ScanType: tcp.FlagsScanType, IP: ip, Port: port, Flags: f}
+			g.real, g.desc = x, resDesc{1, []val{sval(x.ScanType), sval(x.IP), nval(int64(x.Port)), sval(x.Flags)}}
+			g.fresh = func() interface{} { return &shTCP{} }
+			e := shTCP(*x)
+			g.expect = &e
+		case 2:
+			x := &icmp.ScanResult{ScanType: "icmp", IP: f, TTL: ttl, ICMP: &icmp.Response{Type: 3, Code: 1}}
+			g.real, g.desc = x, resDesc{2, []val{sval(x.ScanType), sval(x.IP), nval(int64(x.TTL)), {"ptr": []val{nval(3), nval(1)}}}}
+			g.fresh = func() interface{} { return &shICMP{} }
+			e := shICMP(*x)
+			c := *x.ICMP
+			e.ICMP = &c
+			g.expect = &e
+		case 3:
+			x := &socks5.ScanResult{ScanType: socks5.ScanType, Version: 5, IP: f, Port: port, Auth: withIdx}
+			g.real, g.desc = x, resDesc{3, []val{sval(x.ScanType), nval(5), sval(x.IP), nval(int64(x.Port)), bval(x.Auth)}}
+			g.fresh = func() interface{} { return &shSocks{} }
+			e := shSocks(*x)
+			g.expect = &e
+		case 4:
+			x := &elastic.ScanResult{ScanType: elastic.ScanType, Proto: "http", Host: fmt.Sprintf("%s:%d", ip, port),
+				Info: map[string]interface{}{"cluster_name": f}}
+			ti := tree{"map", []interface{}{[]interface{}{hx([]byte("cluster_name")), tree{"str", hx([]byte(f))}}}}
+			var tx tree = tree{"null"}
+			if withIdx {
+				x.Indexes = map[string]interface{}{"logs-1": true}
+				tx = tree{"map", []interface{}{[]interface{}{hx([]byte("logs-1")), tree{"bool", true}}}}
+			}
+			g.real, g.desc = x, resDesc{4, []val{sval(x.ScanType), sval(x.Proto), sval(x.Host), {"tree": ti}, {"tree": tx}}}
+			g.fresh = func() interface{} { return &shElastic{} }
+			e := shElastic(*x)
+			g.expect = &e
+		default:
+			x := &docker.ScanResult{ScanType: docker.ScanType, Proto: "https", Host: fmt.Sprintf("%s:%d", ip, port)}
+			x.Info.Name = f
+			x.Info.Containers = int(port)
+			x.Version.Version = "20.10.7"
+			g.real = x
+			g.desc = resDesc{5, []val{sval(x.ScanType), sval(x.Proto), sval(x.Host),
+				{"tree": treeOfValue(reflect.ValueOf(x.Info))}, {"tree": treeOfValue(reflect.ValueOf(x.Version))}}}
+			g.fresh = func() interface{} { return &shDocker{} }
+			e := shDocker(*x)
+			g.expect = &e
+		}
+		return g
+	}
+	size := func(g genRes) int {
+		out, err := g.real.MarshalJSON()
+		if err != nil {
+			panic(err)
+		}
+		return len(out)
+	}
+	// at least one padding character (an omitempty member appears only then); else the smallest record
+	try := func(pre string) (genRes, bool) {
+		if b1 := size(build(pre + "a")); b1 <= want {
+			return build(pre + "a" + asciiFill(r, want-b1)), true
+		}
+		return genRes{}, false
+	}
+	g, ok := try(prefix)
+	if !ok {
+		g, ok = try("")
+	}
+	if !ok {
+		g = build("")
+		return g, size(g) == want
+	}
+	if size(g) != want {
+		panic(fmt.Sprintf("harness: sized %s record is %d bytes, wanted %d", lenKindNames[kind], size(g), want))
+	}
+	return g, true
+}
+
+// lenSeed: the seed of the j-th record of length l in a sweep / length history with the given seed
+func lenSeed(seed int64, l, j int) int64 { return derive(seed, l*16+j) }
+
+type streamWriter struct {
+	mu     sync.Mutex
+	buf    bytes.Buffer
+	writes int
+}
+
+func (w *streamWriter) Write(p []byte) (int, error) {
+	w.mu.Lock()
+	defer w.mu.Unlock()
+	w.writes++
+	return w.buf.Write(p) // copies p
+}
+
+func lenLogger(which int, w io.Writer) (log.Logger, string) {
+	var lg log.Logger
+	var err error
+	name := "log.NewLogger(JSON())"
+	switch which % 3 {
+	case 0:
+		lg, err = log.NewLogger(w, "c14", log.JSON())
+	case 1:
+		lg, err = command.VerifC14PacketLogger("c14", w, true)
+		name = "the packet commands' JSON logger"
+	default:
+		lg, err = command.VerifC14GenericLogger("c14", w, true)
+		name = "the generic commands' JSON logger"
+	}
+	if err != nil {
+		panic(err)
+	}
+	return lg, name
+}
+
+// judgeLines is the property on the bytes standard output received for the results gs, judged on the
+// implementation alone: as many lines as results, every line terminated, line i one complete JSON object
+// that decodes back to the fields of result i (judge).  Returns "" or why not, and the index of the
+// first result whose line is wrong.
+func judgeLines(gs []genRes, stream []byte) (string, int) {
+	rest := stream
+	for i, g := range gs {
+		enc, err := g.real.MarshalJSON()
+		if err != nil {
+			panic(err)
+		}
+		what := fmt.Sprintf("result %d of %d (%s record of %d bytes)", i+1, len(gs), strings.Split(g.class, ":")[0], len(enc))
+		nl := bytes.IndexByte(rest, '\n')
+		if nl < 0 {
+			if len(rest) == 0 {
+				return what + " has no line: the output ends after " + strconv.Itoa(i) + " lines", i
+			}
+			return fmt.Sprintf("%s: its line is not terminated by a newline (output ends ...%s)", what, tailOf(rest, 40)), i
+		}
+		line := rest[:nl]
+		rest = rest[nl+1:]
+		if !bytes.Equal(line, enc) {
+			if len(line) > len(enc) && bytes.Equal(line[:len(enc)], enc) && i+1 < len(gs) {
+				return fmt.Sprintf("%s is not on a line of its own: its line continues with the next result (%d bytes: ...%s|%s...), which is not one JSON object (json.Valid = %v); the output has %d lines for %d results",
+					what, len(line), tailOf(enc, 24), headOf(line[len(enc):], 40), json.Valid(line), bytes.Count(stream, []byte{'\n'}), len(gs)), i
+			}
+			if why := judge(g, line); why != "" {
+				return what + ": " + why, i
+			}
+			return what + ": its line differs from its MarshalJSON encoding", i
+		}
+		if why := judge(g, line); why != "" {
+			return what + ": " + why, i
+		}
+	}
+	if len(rest) > 0 {
+		return fmt.Sprintf("%d extra bytes after the line of the last result", len(rest)), len(gs) - 1
+	}
+	return "", -1
+}
+
+func tailOf(b []byte, n int) string {
+	if len(b) > n {
+		b = b[len(b)-n:]
+	}
+	return string(b)
+}
+
+func headOf(b []byte, n int) string {
+	if len(b) > n {
+		b = b[:n]
+	}
+	return string(b)
+}
+
+// runLen feeds gs through the real JSON logger (one goroutine, unbuffered channel, then close) and
+// returns everything the writer received.
+func runLen(which int, gs []genRes) (stream []byte, logger string, stuck string) {
+	w := &streamWriter{}
+	lg, name := lenLogger(which, w)
+	ctx, cancel := context.WithCancel(context.Background())
+	defer cancel()
+	ch := make(chan scan.Result)
+	done := make(chan struct{})
+	go func() { lg.LogResults(ctx, ch); close(done) }()
+	for i, g := range gs {
+		select {
+		case ch <- g.real:
+		case <-time.After(5 * time.Second):
+			return nil, name, fmt.Sprintf("LogResults stops taking results after %d of %d", i, len(gs))
+		}
+	}
+	close(ch)
+	select {
+	case <-done:
+	case <-time.After(20 * time.Second):
+		return nil, name, "LogResults does not return after its input ended"
+	}
+	w.mu.Lock()
+	defer w.mu.Unlock()
+	return append([]byte{}, w.buf.Bytes()...), name, ""
+}
+
+// lenHistCase (lenhist:<kind>:<logger>:<seed>:<len>.<j>,<len>.<j>,...): a short history of records of the given
+// exact encoded lengths through the real JSON logger; judged on the implementation (judgeLines) and handed to
+// the model as a KLog case.
+func lenHistCase(gen string) row {
+	p := strings.Split(gen, ":")
+	if len(p) != 5 {
+		panic("bad gen string " + gen)
+	}
+	kind, _ := strconv.Atoi(p[1])
+	which, _ := strconv.Atoi(p[2])
+	seed, _ := strconv.ParseInt(p[3], 10, 64)
+	var gs []genRes
+	for _, it := range strings.Split(p[4], ",") {
+		var l, j int
+		if _, err := fmt.Sscanf(it, "%d.%d", &l, &j); err != nil {
+			panic("bad gen string " + gen)
+		}
+		if g, ok := sizedResult(hlib.NewRand(lenSeed(seed, l, j)), kind, l); ok {
+			gs = append(gs, g)
+		}
+	}
+	rw := row{T: "log", Gen: gen, Class: "record-lengths+" + lenKindNames[kind], Stop: -1, Nontrivial: len(gs) > 0}
+	stream, name, stuck := runLen(which, gs)
+	if stuck != "" {
+		rw.Spec = stuck
+		return rw
+	}
+	for _, g := range gs {
+		rw.Rs = append(rw.Rs, g.desc)
+	}
+	rw.Writes = []string{hx(stream)}
+	if why, _ := judgeLines(gs, stream); why != "" {
+		rw.Spec = fmt.Sprintf("%d %s records with encoded lengths %s through %s: %s", len(gs), lenKindNames[kind], lengthsOf(gs), name, why)
+	}
+	return rw
+}
+
+func lengthsOf(gs []genRes) string {
+	var l []string
+	for _, g := range gs {
+		enc, _ := g.real.MarshalJSON()
+		l = append(l, strconv.Itoa(len(enc)))
+	}
+	return strings.Join(l, ", ")
+}
+
+type sweepInfo struct {
+	Lo, Hi, Records, Bytes, Lines int
+}
+
+// lenSweepCase (lensweep:<kind>:<logger>:<lo>:<hi>:<rep>:<seed>): records of ONE result type whose encoded JSON
+// takes EVERY length lo..hi the type can have (rep records in a row per length, different contents), in
+// increasing order through the real JSON logger; judged on the implementation alone (judgeLines: one complete
+// JSON object per result, each on its own line, in order, decoding back to the result).  When a length fails,
+// the three-record history around it is returned as a second row (replayable alone, also given to the model).
+func lenSweepCase(gen string) []row {
+	p := strings.Split(gen, ":")
+	if len(p) != 7 {
+		panic("bad gen string " + gen)
+	}
+	num := func(i int) int { n, _ := strconv.Atoi(p[i]); return n }
+	kind, which, lo, hi, rep := num(1), num(2), num(3), num(4), num(5)
+	seed, _ := strconv.ParseInt(p[6], 10, 64)
+	type slot struct{ l, j int }
+	var gs []genRes
+	var slots []slot
+	for l := lo; l <= hi; l++ {
+		for j := 0; j < rep; j++ {
+			if g, ok := sizedResult(hlib.NewRand(lenSeed(seed, l, j)), kind, l); ok {
+				gs = append(gs, g)
+				slots = append(slots, slot{l, j})
+			}
+		}
+	}
+	rw := row{T: "sweep", Gen: gen, Class: "record-length-sweep+" + lenKindNames[kind], Nontrivial: len(gs) > 0}
+	if len(gs) == 0 {
+		return []row{rw}
+	}
+	stream, name, stuck := runLen(which, gs)
+	rw.Sweep = &sweepInfo{Lo: slots[0].l, Hi: slots[len(slots)-1].l, Records: len(gs), Bytes: len(stream), Lines: bytes.Count(stream, []byte{'\n'})}
+	if stuck != "" {
+		rw.Spec = stuck
+		return []row{rw}
+	}
+	why, at := judgeLines(gs, stream)
+	if why == "" {
+		return []row{rw}
+	}
+	rw.Spec = fmt.Sprintf("%d %s records of every encoded length %d..%d (%d in a row per length) through %s: %s", len(gs), lenKindNames[kind],
+		slots[0].l, slots[len(slots)-1].l, rep, name, why)
+	// the short history around the failing record: its predecessor, itself, its successor
+	var items []string
+	for k := at - 1; k <= at+1; k++ {
+		if k >= 0 && k < len(slots) {
+			items = append(items, fmt.Sprintf("%d.%d", slots[k].l, slots[k].j))
+		}
+	}
+	hist := fmt.Sprintf("lenhist:%d:%d:%d:%s", kind, which, seed, strings.Join(items, ","))
+	small := lenHistCase(hist)
+	if small.Spec != "" {
+		rw.ReplayGen = hist
+		return []row{rw, small}
+	}
+	return []row{rw}
+}
+
 // ---------------------------------------------------------------- driver
 
 func derive(seed int64, i int) int64 {
@@ -2165,6 +2507,10 @@ func genCase(gen string) row {
 		return linesCase(hlib.NewRand(num(2)), gen)
 	case "queue": // queue:<capacity>:<seed>
 		return queueCase(hlib.NewRand(num(2)), gen, int(num(1)))
+	case "lenhist": // lenhist:<kind>:<logger>:<seed>:<len>.<j>,...
+		return lenHistCase(gen)
+	case "lensweep": // lensweep:<kind>:<logger>:<lo>:<hi>:<rep>:<seed>
+		return lenSweepCase(gen)[0]
 	}
 	panic("bad gen string " + gen)
 }
@@ -2180,6 +2526,7 @@ func main() {
 	pairs := flag.Bool("pairs", false, "all 65536 two-byte strings, both escapers")
 	big := flag.Int("big", 0, "number of distinct hosts of the big unique-logger history (0 = none)")
 	one := flag.String("replay", "", "replay one case from its generator string")
+	nsweep := flag.Int("sweep", 9000, "record-length sweep: every encoded length 1..sweep through the JSON logger (0 = none)")
 	flag.Parse()
 	w := hlib.NewOut(*out)
 	defer w.Close()
@@ -2252,6 +2599,44 @@ func main() {
 		for i := 0; i < 6; i++ {
 			w.Put(genCase(fmt.Sprintf("lines:%d:%d", i%2, derive(*seed, k))))
 			k++
+		}
+	}
+	if *nsweep > 0 {
+		// record-length sweep (own seed space, so that the other stages keep their cases)
+		rs := hlib.NewRand(derive(*seed, -11))
+		ks := 1 << 20
+		// the sweeps are independent of each other: four at a time, rows written in generation order
+		var sweeps []chan []row
+		slots := make(chan struct{}, 4)
+		put := func(gen string) {
+			c := make(chan []row, 1)
+			sweeps = append(sweeps, c)
+			go func() {
+				slots <- struct{}{}
+				c <- lenSweepCase(gen)
+				<-slots
+			}()
+		}
+		next := func() int64 { ks++; return derive(*seed, ks) }
+		// every length of the window: the two server-sized types, and one packet type chosen by the seed
+		put(fmt.Sprintf("lensweep:4:%d:1:%d:2:%d", rs.Intn(3), *nsweep, next()))
+		put(fmt.Sprintf("lensweep:5:%d:1:%d:1:%d", rs.Intn(3), *nsweep, next()))
+		put(fmt.Sprintf("lensweep:%d:%d:1:%d:1:%d", rs.Intn(4), rs.Intn(3), *nsweep, next()))
+		// around the powers of two and page / buffer sizes: every type, three in a row per length
+		for kind := 0; kind < 6; kind++ {
+			for c := 512; c <= 65536; c *= 2 {
+				put(fmt.Sprintf("lensweep:%d:%d:%d:%d:3:%d", kind, rs.Intn(3), c-2, c+2, next()))
+			}
+		}
+		for _, c := range sweeps {
+			for _, rw := range <-c {
+				w.Put(rw)
+			}
+		}
+		// short histories at such sizes, also evaluated by the model
+		for i := 0; i < 6; i++ {
+			c := 512 << uint(rs.Intn(4))
+			w.Put(genCase(fmt.Sprintf("lenhist:%d:%d:%d:%d.0,%d.0,%d.1,%d.0,%d.0", []int{0, 1, 2, 3, 4, 4}[i], rs.Intn(3), next(), c-1, c, c, c+1, 60+rs.Intn(100))))
 		}
 	}
 	for i := 0; i < *nburst; i++ {
